@@ -211,14 +211,16 @@ pub struct Outcome<T> {
 
 impl Sched {
     pub fn new() -> Arc<Self> {
-        let s = Arc::new(Self::default());
-        // the library's internal scheduling points park at this scheduler
-        let s2 = s.clone();
+        Arc::new(Self::default())
+    }
+
+    /// the library's internal scheduling points park at this scheduler from now on
+    fn claim_sched_points(self: &Arc<Self>) {
+        let s2 = self.clone();
         rustic_core::verif::set_sched_point(Some(Box::new(move |name: &'static str, what: &str| {
             let short = if what.len() > 12 { &what[..12] } else { what };
             s2.gate(GateKey { actor: 0, role: Role::Internal, desc: format!("{name} {short}") });
         })));
-        s
     }
 
     pub fn is_active(&self) -> bool {
@@ -264,6 +266,7 @@ impl Sched {
         f: impl FnOnce() -> T + Send + 'static,
     ) -> Outcome<T> {
         let policy_name = policy.name();
+        self.claim_sched_points();
         let start_ns = interpose::clock_now();
         {
             let mut g = self.inner.lock().unwrap();
